@@ -791,6 +791,43 @@ func famForge(r *Rng, o *Out, tier string) {
 			*d = *f
 			return true
 		})
+		// the same second discharge BOUND to the token ([c1, c2, Bind], what a client presents): a binding caveat is a
+		// caveat like any other - moved to the front or between the others under the held tail it must be refused
+		// (a verifier that chains bindings in a pass of their own accepts every such move)
+		if _, bd, err := macaroon.DischargeTicket(kb, "https://other.example", itb.tp.ticket); err == nil && bd.Add(c1) == nil && bd.Add(c2) == nil && bd.Bind(tok) == nil {
+			boundB := mustEnc(bd)
+			if obs := emitVerify(o, key, tok, [][]byte{daB, boundB}, nil); obs != "err:unmodelled" {
+				if strings.HasPrefix(obs, "ok") {
+					o.emit("(const sound)", "sound")
+				} else {
+					o.emit("(const sound)", "genuine-bound-discharge-rejected")
+				}
+			}
+			for _, order := range [][]int{{2, 0, 1}, {0, 2, 1}, {2, 1, 0}, {1, 0, 2}} {
+				d, err := macaroon.Decode(boundB)
+				if err != nil || len(d.UnsafeCaveats.Caveats) != 3 {
+					break
+				}
+				cs := d.UnsafeCaveats.Caveats
+				d.UnsafeCaveats.Caveats = []macaroon.Caveat{cs[order[0]], cs[order[1]], cs[order[2]]}
+				cand, err := d.Encode()
+				if err != nil || bytes.Equal(cand, boundB) {
+					continue
+				}
+				for _, ds := range [][][]byte{{daB, cand}, {cand, daB}} {
+					obs := emitVerify(o, key, tok, ds, nil)
+					o.count("twoTP.discharge.bound.moved")
+					if obs == "err:unmodelled" {
+						continue
+					}
+					if strings.HasPrefix(obs, "ok") {
+						o.emit("(const sound)", fmt.Sprintf("forgery:bound-discharge-caveats-moved-%v", order))
+					} else {
+						o.emit("(const sound)", "sound")
+					}
+				}
+			}
+		}
 	}
 	// "independently minted tokens never share a nonce" whatever the host program does with ITS pseudo-random
 	// generator: the same math/rand seed before two mints (a host seeding for reproducible runs) must not make
@@ -1189,6 +1226,68 @@ func famDischarge(r *Rng, o *Out, tier string) {
 				o.emit("(const sound)", "rejected-despite-genuine-discharge:"+strings.Join(kinds, ",")+":"+strings.ReplaceAll(obs, " ", "_"))
 			default:
 				o.emit("(const sound)", "sound")
+			}
+		}
+		// TWINS: copies of one genuine discharge that share its nonce (key-id AND random part) but do not verify - a stale
+		// or corrupted copy a client still holds: tail bit flipped, a caveat appended or removed under the old tail - in
+		// front of, behind and around the genuine one. "Extra, malformed or duplicate discharges do not change the
+		// outcome": the genuine one is found wherever it stands (a verifier that de-duplicates candidates by nonce keeps
+		// whichever twin came first)
+		if len(tps) > 0 {
+			u := tps[r.Intn(len(tps))]
+			var others [][]byte // genuine discharges for the other tickets
+			for _, v := range tps {
+				if string(v.ticket) != string(u.ticket) {
+					_, d, _ := macaroon.DischargeTicket(v.p.ka, v.p.loc, v.ticket)
+					others = append(others, mustEnc(d))
+				}
+			}
+			_, g, err := macaroon.DischargeTicket(u.p.ka, u.p.loc, u.ticket)
+			if err == nil {
+				g.Add(r.plainCav(1))
+				gb := mustEnc(g)
+				twin := func(f func(d *macaroon.Macaroon)) []byte {
+					d, err := macaroon.Decode(gb)
+					if err != nil {
+						return nil
+					}
+					f(d)
+					b, err := d.Encode()
+					if err != nil || bytes.Equal(b, gb) {
+						return nil
+					}
+					return b
+				}
+				bads := [][]byte{
+					twin(func(d *macaroon.Macaroon) { d.Tail[r.Intn(len(d.Tail))] ^= 1 }),
+					twin(func(d *macaroon.Macaroon) { d.UnsafeCaveats.Caveats = append(d.UnsafeCaveats.Caveats, r.plainCav(0)) }),
+					twin(func(d *macaroon.Macaroon) { d.UnsafeCaveats.Caveats = nil }),
+				}
+				for bi, bad := range bads {
+					if bad == nil {
+						continue
+					}
+					for pi, pres := range [][][]byte{{bad, gb}, {gb, bad}, {bad, bad, gb}, {bad, gb, gb}, {bad}} {
+						ds := append(append([][]byte{}, pres...), others...)
+						if pi%2 == 1 {
+							ds = append(append([][]byte{}, others...), pres...)
+						}
+						obs := emitVerify(o, key, final, ds, nil)
+						o.count("twins")
+						if obs == "err:unmodelled" {
+							continue
+						}
+						accepted := strings.HasPrefix(obs, "ok")
+						switch want := pi != 4; {
+						case accepted && !want:
+							o.emit("(const sound)", fmt.Sprintf("accepted-with-only-a-broken-twin:%d", bi))
+						case !accepted && want:
+							o.emit("(const sound)", fmt.Sprintf("rejected-despite-genuine-discharge:twin%d.presentation%d:%s", bi, pi, strings.ReplaceAll(obs, " ", "_")))
+						default:
+							o.emit("(const sound)", "sound")
+						}
+					}
+				}
 			}
 		}
 		// a discharge that itself demands a further discharge never satisfies its caveat - also when that further
